@@ -66,6 +66,17 @@ CHECKS = {
         "promises no result there).",
         design="4/C18",
     ),
+    "C19": dict(
+        text="For every counterfactual variable (every consistent subscript assignment incl. irrelevant and reflexive ones) on every "
+        "graph of the bound: minimize_counterfactual is compared with the original variable in every exogenous setting of two "
+        "functional witnesses, get_ancestors_of_counterfactual with an independent implementation of Definition 2.1; for every "
+        "event of up to two items (repeated variables allowed): simplify must preserve the event's probability (None only at "
+        "probability zero) and the counterfactual-factor factorisation of simplified-form queries must evaluate to the query's "
+        "probability with multi-world terms obtained by noise enumeration. Defects pinned by the repository's tests are listed "
+        "with an index of failing inputs.",
+        note="Trusted: mc/fscm.py; ancestral components (Definition 4.2) are not covered by this check.",
+        design="4/C19",
+    ),
     "C10": dict(
         text="Breadth-first exploration of DSL operation sequences from a 24-atom alphabet (thorough: also three operations deep "
         "from a 12-atom alphabet): for every well-scoped expression reached and every ordering, the value function of the "
